@@ -38,6 +38,8 @@ def generate(rng, tier, shard, nshards):
                                  site=f"from_strings.to_cfg[{rec}]", feat="state-names-are-symbols")
         # byte conversion: alphabets mixing 1-4 byte characters and multi-character symbols
         syms = rng.sample(CHARS, rng.choice([2, 3])) + ([rng.choice(["ab", "éa", "aü"])] if i % 4 == 0 else [])
+        if i % 5 == 2:
+            syms[0] = "\x00"          # U+0000 encodes as the byte 0, a falsy label
         names = [gops.tname(x) for x in syms]
         Mb = aops.rand_wfsa(rng, srn, nS=rng.choice([2, 3]), narcs=rng.choice([2, 3, 4]), labels=tuple(names) + ("",), **kw)
         yield event("tobytes", {"sr": srn, "M": Mb, "L": 3 if tier == "quick" else 4, "style": style},
